@@ -30,7 +30,6 @@ type coalesceOperator struct {
 	series []labels.Labels
 
 	pool          *model.VectorPool
-	mu            sync.Mutex
 	wg            sync.WaitGroup
 	operators     []model.VectorOperator
 	sampleOffsets []uint64
@@ -74,7 +73,9 @@ func (c *coalesceOperator) Next(ctx context.Context) ([]model.StepVector, error)
 		return nil, err
 	}
 
-	var out []model.StepVector = nil
+	// The batches are merged in operator order once all of them have arrived, so
+	// that the order of samples within a step does not depend on scheduling.
+	var batches = make([][]model.StepVector, len(c.operators))
 	var errChan = make(errorChan, len(c.operators))
 	for idx, o := range c.operators {
 		c.wg.Add(1)
@@ -86,36 +87,7 @@ func (c *coalesceOperator) Next(ctx context.Context) ([]model.StepVector, error)
 				errChan <- err
 				return
 			}
-			if in == nil {
-				return
-			}
-
-			for _, vector := range in {
-				for i := range vector.SampleIDs {
-					vector.SampleIDs[i] += c.sampleOffsets[opIdx]
-				}
-			}
-
-			c.mu.Lock()
-			defer c.mu.Unlock()
-
-			if len(in) > 0 && out == nil {
-				out = c.pool.GetVectorBatch()
-				for i := 0; i < len(in); i++ {
-					out = append(out, c.pool.GetStepVector(in[i].T))
-				}
-			}
-
-			for i := 0; i < len(in); i++ {
-				if len(in[i].Samples) > 0 {
-					out[i].T = in[i].T
-				}
-
-				out[i].Samples = append(out[i].Samples, in[i].Samples...)
-				out[i].SampleIDs = append(out[i].SampleIDs, in[i].SampleIDs...)
-				o.GetPool().PutStepVector(in[i])
-			}
-			o.GetPool().PutVectors(in)
+			batches[opIdx] = in
 		}(idx, o)
 	}
 	c.wg.Wait()
@@ -123,6 +95,38 @@ func (c *coalesceOperator) Next(ctx context.Context) ([]model.StepVector, error)
 
 	if err := errChan.getError(); err != nil {
 		return nil, err
+	}
+
+	var out []model.StepVector = nil
+	for opIdx, in := range batches {
+		if in == nil {
+			continue
+		}
+		o := c.operators[opIdx]
+
+		for _, vector := range in {
+			for i := range vector.SampleIDs {
+				vector.SampleIDs[i] += c.sampleOffsets[opIdx]
+			}
+		}
+
+		if len(in) > 0 && out == nil {
+			out = c.pool.GetVectorBatch()
+			for i := 0; i < len(in); i++ {
+				out = append(out, c.pool.GetStepVector(in[i].T))
+			}
+		}
+
+		for i := 0; i < len(in); i++ {
+			if len(in[i].Samples) > 0 {
+				out[i].T = in[i].T
+			}
+
+			out[i].Samples = append(out[i].Samples, in[i].Samples...)
+			out[i].SampleIDs = append(out[i].SampleIDs, in[i].SampleIDs...)
+			o.GetPool().PutStepVector(in[i])
+		}
+		o.GetPool().PutVectors(in)
 	}
 
 	if out == nil {
